@@ -215,3 +215,28 @@ Theorem C05_printer_table : forall o, exists fn comb ops nxt,
   nth_error documented_levels (binop_prec o - 1) = Some (fn, comb, ops, nxt)
   /\ In (tkind_name (binop_tok o), binop_name o) ops /\ In (binop_text o, binop_tok o) specials.
 Proof. exact C05Round.C05_printer_table. Qed.
+
+(* --- the round trip covers the whole language: every parsed tree is printable, so parse . print . parse = parse --- *)
+(* `wf_print e` is `printable e = true` (Spec/Printer.v, executable): strings, dotted names with leading dots, calls,
+   blocks, slices, size suffixes, assignments, unary chains, sized literals of any size, all ternary corner cases *)
+Theorem C05_parse_printable : forall s e w, parse_text s = POk e w -> printable e = true.
+Proof. exact C05Round.C05_parse_printable. Qed.
+Theorem C05_reparse_stable : forall s e w, parse_text s = POk e w -> (depth_min e <= PARSE_DEPTH_MAX)%nat ->
+  exists w', parse_text (print_min e) = POk e w' /\ cur w' = bytes_len (print_min e).
+Proof. exact C05Round.C05_reparse_stable. Qed.
+Theorem C05_reparse_stable_full : forall s e w, parse_text s = POk e w -> (depth_full e <= PARSE_DEPTH_MAX)%nat ->
+  exists w', parse_text (print_full e) = POk e w' /\ cur w' = bytes_len (print_full e).
+Proof. exact C05Round.C05_reparse_stable_full. Qed.
+Theorem C05_reparse_stable_height : forall s e w, parse_text s = POk e w -> (2 * height e < PARSE_DEPTH_MAX)%nat ->
+  exists w', parse_text (print_min e) = POk e w' /\ cur w' = bytes_len (print_min e).
+Proof. exact C05Round.C05_reparse_stable_height. Qed.
+(* the depth hypothesis (about the printed text) is needed: a source at the limit whose reprint is one level deeper *)
+Theorem C05_reparse_needs_depth :
+  exists e w, parse_text C05Round.deep_src = POk e w /\ parse_text (print_min e) = PErr /\ depth_min e = 51%nat.
+Proof. exact C05Round.C05_reparse_needs_depth. Qed.
+(* string literals written by the specification's literal printer are printable tokens denoting the string *)
+Theorem C05_string_literal : forall s, scalar_text s -> forallb PrintStrP.noq s = true ->
+  printable (EStr (PrintStrP.str_lit s)) = true /\ string_contents (PrintStrP.str_lit s) = Some s.
+Proof. exact C05Round.C05_string_literal. Qed.
+Print Assumptions C05_parse_print_min. Print Assumptions C05_parse_print_full. Print Assumptions C05_reparse_stable.
+Print Assumptions C05_parse_printable.
